@@ -640,7 +640,20 @@ static Seg4 genSeg(Rng& r, Out& out) {
         }
     } else if (k < 78) {                                    // proper crossings
         out.count("class_seg_proper_crossing");
-        if (r.chance(50)) {
+        if (r.chance(25)) {
+            // nearly parallel long segments crossing properly at a lattice point: directions (n, n-1) and (n-1, n-2) have
+            // cross product -1 grid unit^2 while the ordinate differences reach 2^25: the worst conditioning the grid allows
+            ll n = r.chance(50) ? randIn(r, 3, 1000) : (r.chance(50) ? randIn(r, 1000, 1LL << 20) : (GRID / 2) - randIn(r, 0, 64));
+            IP d1{n, n - 1}, d2{n - 1, n - 2};
+            if (r.chance(30)) { ll m = randIn(r, 2, 9); d2 = IP{m * n - 1, m * (n - 1) - 1}; if (std::max(d2.x, d2.y) > GRID / 2) d2 = IP{n - 1, n - 2}; }   // cross = n - (n-1)... still tiny
+            if (r.chance(50)) { std::swap(d1.x, d1.y); std::swap(d2.x, d2.y); }
+            if (r.chance(50)) { d1.x = -d1.x; d2.x = -d2.x; }
+            ll i1 = 1, j1 = 1, i2 = 1, j2 = 1;
+            if (std::max(std::abs(d1.x), std::abs(d1.y)) < GRID / 16 && std::max(std::abs(d2.x), std::abs(d2.y)) < GRID / 16) { i1 = randIn(r, 1, 4); j1 = randIn(r, 1, 4); i2 = randIn(r, 1, 4); j2 = randIn(r, 1, 4); }
+            IP c = rndPt(r, 8);
+            g = Seg4{c - i1 * d1, c + j1 * d1, c - i2 * d2, c + j2 * d2};
+            out.count("seg_cross_near_parallel");
+        } else if (r.chance(50)) {
             IP c = rndPt(r, L); ll S = std::max<ll>(1, L / 8); IP d1 = rndPt(r, S), d2 = rndPt(r, S);
             if (d1.x == 0 && d1.y == 0) d1.x = 1;
             if (cross(d1, d2) == 0) d2 = IP{-d1.y, d1.x};
@@ -717,6 +730,89 @@ static std::string ccwExpect(GEOSContextHandle_t h, const std::vector<double>& x
     return s;
 }
 
+
+// ------------------------------------------------------------------------------------------ polygon with holes
+
+struct PolyG { std::vector<std::vector<IP>> rings; Box box; };
+
+static int locRing(const std::vector<IP>& rg, const IP& p) {   // exact: 1 inside, 0 boundary, -1 outside (closed ring)
+    bool in = false;
+    for (size_t i = 0; i + 1 < rg.size(); i++) { const IP& a = rg[i]; const IP& b = rg[i + 1];
+        i128 c = det128(a, b, p);
+        if (c == 0 && std::min(a.x, b.x) <= p.x && p.x <= std::max(a.x, b.x) && std::min(a.y, b.y) <= p.y && p.y <= std::max(a.y, b.y)) return 0;
+        if ((a.y <= p.y && p.y < b.y && c > 0) || (b.y <= p.y && p.y < a.y && c < 0)) in = !in; }
+    return in ? 1 : -1;
+}
+static std::vector<double> ringXY(const std::vector<IP>& rg, int k) { std::vector<double> xy; for (auto& q : rg) { xy.push_back(sc(q.x, k)); xy.push_back(sc(q.y, k)); } return xy; }
+static GEOSGeometry* mkRing(GEOSContextHandle_t h, const std::vector<double>& xy) {
+    GEOSCoordSequence* cs = GEOSCoordSeq_copyFromBuffer_r(h, xy.data(), (unsigned) (xy.size() / 2), 0, 0);
+    return cs ? GEOSGeom_createLinearRing_r(h, cs) : nullptr; }
+static GEOSGeometry* mkPoly(GEOSContextHandle_t h, const std::vector<std::vector<double>>& rings) {
+    GEOSGeometry* shell = mkRing(h, rings[0]); if (!shell) return nullptr;
+    std::vector<GEOSGeometry*> holes; for (size_t i = 1; i < rings.size(); i++) { GEOSGeometry* g = mkRing(h, rings[i]); if (g) holes.push_back(g); }
+    return GEOSGeom_createPolygon_r(h, shell, holes.empty() ? nullptr : holes.data(), (unsigned) holes.size()); }
+
+// shell: the box rectangle (sometimes with extra collinear vertices) or a convex hull; holes: small convex rings strictly inside,
+// pairwise disjoint but with freely overlapping envelopes (triangles next to squares), checked with GEOSisValid
+static PolyG genPoly(GEOSContextHandle_t h, Rng& r, Out& out) {
+    PolyG g; g.box = pickBox(r, out); Box b = g.box;
+    if (b.hix - b.lox < 6) b.hix = b.lox + 6; if (b.hiy - b.loy < 6) b.hiy = b.loy + 6;
+    if (b.hix > GRID) { b.lox -= b.hix - GRID; b.hix = GRID; } if (b.hiy > GRID) { b.loy -= b.hiy - GRID; b.hiy = GRID; }
+    g.box = b;
+    std::vector<IP> shell;
+    if (r.chance(40)) { std::vector<IP> pts; int n = r.range(4, 9); for (int i = 0; i < n; i++) pts.push_back(IP{randIn(r, b.lox, b.hix), randIn(r, b.loy, b.hiy)}); shell = convexHull(pts); if (!shell.empty()) out.count("poly_shell_hull"); }
+    if (shell.empty()) { shell = {IP{b.lox, b.loy}, IP{b.hix, b.loy}, IP{b.hix, b.hiy}, IP{b.lox, b.hiy}}; out.count("poly_shell_rect"); }
+    if (r.chance(30)) insertCollinear(r, shell, 50);
+    if (r.chance(50)) std::reverse(shell.begin(), shell.end());
+    shell.push_back(shell[0]); g.rings.push_back(shell);
+    int want = r.range(1, 4);
+    for (int tries = 0; tries < 12 && (int) g.rings.size() - 1 < want; tries++) {
+        ll w = std::max<ll>(2, (b.hix - b.lox) / r.range(1, 4)), hgt = std::max<ll>(2, (b.hiy - b.loy) / r.range(1, 4));
+        ll x0 = randIn(r, b.lox + 1, std::max(b.lox + 1, b.hix - 1 - w)), y0 = randIn(r, b.loy + 1, std::max(b.loy + 1, b.hiy - 1 - hgt));
+        ll x1 = std::min(b.hix - 1, x0 + w), y1 = std::min(b.hiy - 1, y0 + hgt); if (x1 <= x0 || y1 <= y0) continue;
+        std::vector<IP> hole; int kind = (int) r.below(3);
+        if (kind == 0) hole = {IP{x0, y0}, IP{x1, y0}, IP{x1, y1}, IP{x0, y1}};
+        else if (kind == 1) { hole = {IP{x0, y0}, IP{x1, y0}, IP{x0, y1}}; ll m = r.below(4); for (auto& q : hole) { if (m & 1) q.x = x0 + x1 - q.x; if (m & 2) q.y = y0 + y1 - q.y; } }   // a corner triangle: half of its envelope is free
+        else { std::vector<IP> pts; int n = r.range(3, 6); for (int i = 0; i < n; i++) pts.push_back(IP{randIn(r, x0, x1), randIn(r, y0, y1)}); hole = convexHull(pts); }
+        if (hole.size() < 3) continue;
+        bool inside = true; for (auto& q : hole) if (locRing(shell, q) != 1) inside = false;
+        if (!inside) continue;
+        if (r.chance(50)) std::reverse(hole.begin(), hole.end());
+        hole.push_back(hole[0]); g.rings.push_back(hole);
+        std::vector<std::vector<double>> xs; for (auto& rg : g.rings) xs.push_back(ringXY(rg, 0));
+        GEOSGeometry* poly = mkPoly(h, xs); bool ok = poly && GEOSisValid_r(h, poly) == 1; if (poly) GEOSGeom_destroy_r(h, poly);
+        if (!ok) g.rings.pop_back();
+    }
+    out.count("poly_holes_" + std::to_string(g.rings.size() - 1));
+    return g;
+}
+
+static std::string polyCaseLine(double px, double py, const std::vector<std::vector<double>>& rings) {
+    std::string s = "Y " + std::to_string(rings.size()); addHex(s, px); addHex(s, py);
+    for (auto& xy : rings) { s += " " + std::to_string(xy.size() / 2); for (double d : xy) addHex(s, d); }
+    return s;
+}
+struct PolyObj { GEOSContextHandle_t h; GEOSGeometry* poly = nullptr; const GEOSPreparedGeometry* prep = nullptr; std::unique_ptr<geos::algorithm::locate::IndexedPointInAreaLocator> ipa;
+    PolyObj(GEOSContextHandle_t hh, const std::vector<std::vector<double>>& rings) : h(hh) { poly = mkPoly(h, rings);
+        if (poly) { prep = GEOSPrepare_r(h, poly); try { ipa = std::make_unique<geos::algorithm::locate::IndexedPointInAreaLocator>(*reinterpret_cast<geos::geom::Geometry*>(poly)); } catch (...) {} } }
+    ~PolyObj() { ipa.reset(); if (prep) GEOSPreparedGeom_destroy_r(h, prep); if (poly) GEOSGeom_destroy_r(h, poly); } };
+// tokens: SimplePointInAreaLocator  IndexedPointInAreaLocator  GEOSPreparedIntersectsXY  GEOSIntersects(point)  GEOSContains(poly, point)  GEOSPreparedContainsXY
+static std::string polyExpect(PolyObj& po, double px, double py, char* locOut = nullptr) {
+    if (!po.poly) return "NOPOLY";
+    CoordinateXY p(px, py); std::string s;
+    try { char c = locTok(geos::algorithm::locate::SimplePointInAreaLocator::locate(p, reinterpret_cast<geos::geom::Geometry*>(po.poly))); s += c; if (locOut) *locOut = c; } catch (...) { s += "EXC"; }
+    s += ' ';
+    if (!po.ipa) s += "NOIPA"; else { try { s += locTok(po.ipa->locate(&p)); } catch (...) { s += "EXC"; } }
+    auto tf = [](char c) { return c == 1 ? '1' : c == 0 ? '0' : 'E'; };
+    s += ' '; s += po.prep ? tf(GEOSPreparedIntersectsXY_r(po.h, po.prep, px, py)) : 'N';
+    GEOSGeometry* pt = GEOSGeom_createPointFromXY_r(po.h, px, py);
+    s += ' '; s += pt ? tf(GEOSIntersects_r(po.h, po.poly, pt)) : 'N';
+    s += ' '; s += pt ? tf(GEOSContains_r(po.h, po.poly, pt)) : 'N';
+    s += ' '; s += po.prep ? tf(GEOSPreparedContainsXY_r(po.h, po.prep, px, py)) : 'N';
+    if (pt) GEOSGeom_destroy_r(po.h, pt);
+    return s;
+}
+
 // ------------------------------------------------------------------------------------------ replay
 
 static int replay(GEOSContextHandle_t h, const std::string& stream, const char* path) {
@@ -733,6 +829,13 @@ static int replay(GEOSContextHandle_t h, const std::string& stream, const char* 
                 double px = unhex(tk[3]), py = unhex(tk[4]); std::vector<double> xy; for (size_t i = 0; i < 2 * n; i++) xy.push_back(unhex(tk[5 + i]));
                 bool simple = tk[1] == "1";
                 std::cout << ringCaseLine(simple, px, py, xy) << "\n" << ringExpect(pc, simple, px, py, xy) << "\n";
+            } else if (tk[0] == "Y" && tk.size() >= 5) {
+                size_t nr = std::stoul(tk[1]); double px = unhex(tk[2]), py = unhex(tk[3]); size_t pos = 4; std::vector<std::vector<double>> rings;
+                for (size_t q = 0; q < nr; q++) { if (pos >= tk.size()) throw 1; size_t n = std::stoul(tk[pos++]); if (pos + 2 * n > tk.size()) throw 1;
+                    std::vector<double> xy; for (size_t i = 0; i < 2 * n; i++) xy.push_back(unhex(tk[pos++])); rings.push_back(xy); }
+                if (pos != tk.size() || rings.empty()) throw 1;
+                PolyObj po(h, rings);
+                std::cout << polyCaseLine(px, py, rings) << "\n" << polyExpect(po, px, py) << "\n";
             } else if (tk[0] == "S" && tk.size() >= 9) {
                 double v[8]; for (int i = 0; i < 8; i++) v[i] = unhex(tk[1 + i]);
                 std::string e; std::string c = segBoth(h, v, e);
@@ -795,6 +898,28 @@ int main(int argc, char** argv) {
                     std::string e = ringExpect(pc, g.simple, px, py, xy, &loc);
                     out.count(std::string("loc_") + loc); out.count(g.simple ? "pt_in_simple_ring" : "pt_in_non_simple_ring");
                     out.emit(ringCaseLine(g.simple, px, py, xy), e);
+                }
+            }
+        } else if (stream == "poly") {
+            long done = 0;
+            while (done < n) {
+                PolyG g = genPoly(h, r, out); int k = commonK(r);
+                std::vector<std::vector<double>> rings; for (auto& rg : g.rings) rings.push_back(ringXY(rg, k));
+                PolyObj po(h, rings);
+                int npts = r.range(4, 10);
+                for (int j = 0; j < npts && done < n; j++, done++) {
+                    // test points are drawn relative to one ring (holes preferred): its vertices, edge points, one-off points, level points, box points
+                    size_t ri = g.rings.size() > 1 && r.chance(75) ? 1 + r.below(g.rings.size() - 1) : 0;
+                    RingG tmp; tmp.v = g.rings[ri]; tmp.simple = true; tmp.kind = "poly"; tmp.box = g.box;
+                    if (ri > 0 && r.chance(60)) { Box hb{tmp.v[0].x, tmp.v[0].y, tmp.v[0].x, tmp.v[0].y}; for (auto& q : tmp.v) { hb.lox = std::min(hb.lox, q.x); hb.hix = std::max(hb.hix, q.x); hb.loy = std::min(hb.loy, q.y); hb.hiy = std::max(hb.hiy, q.y); } tmp.box = hb; }
+                    IP p = genTestPoint(r, tmp, out);
+                    int inEnv = 0; for (size_t q = 1; q < g.rings.size(); q++) { Box hb{g.rings[q][0].x, g.rings[q][0].y, g.rings[q][0].x, g.rings[q][0].y}; for (auto& t : g.rings[q]) { hb.lox = std::min(hb.lox, t.x); hb.hix = std::max(hb.hix, t.x); hb.loy = std::min(hb.loy, t.y); hb.hiy = std::max(hb.hiy, t.y); }
+                        if (hb.lox <= p.x && p.x <= hb.hix && hb.loy <= p.y && p.y <= hb.hiy) inEnv++; }
+                    out.count("pt_in_hole_envelopes_" + std::to_string(std::min(inEnv, 3)));
+                    double px = sc(p.x, k), py = sc(p.y, k); char loc = '?';
+                    std::string e = polyExpect(po, px, py, &loc);
+                    out.count(std::string("poly_loc_") + loc);
+                    out.emit(polyCaseLine(px, py, rings), e);
                 }
             }
         } else if (stream == "segseg") {
